@@ -19,6 +19,7 @@ import builtins
 import hashlib
 import inspect
 import operator
+import re
 import types
 
 from .values import (SBool, SInt, SReal, SStr, SBytes, SOpaque, Unsupported, is_symbolic, mk_bool,
@@ -238,7 +239,7 @@ class Interp(object):
         except (KeyboardInterrupt, SystemExit):
             raise
         except BaseException as e:  # the program's own exception, raised by native code
-            if not model_call and (_mentions_symbolic(e) or any(is_symbolic(a) for a in args)):
+            if _model_gap(e) or (not model_call and (_mentions_symbolic(e) or any(is_symbolic(a) for a in args))):
                 raise Unsupported('native call %s failed on symbolic arguments: %r' % (qualname_of(f), e))
             raise PyRaise(e)
 
@@ -399,6 +400,9 @@ class Interp(object):
         if isinstance(v, SBytes):
             n = v.length()
             return self.truth(n != 0) if not isinstance(n, int) else n != 0
+        from .values import SByteArray
+        if isinstance(v, SByteArray):
+            return self.truth(v.data)
         if v is None or isinstance(v, (int, float, str, bytes, tuple, list, dict, set, frozenset)):
             return bool(v)
         # objects: __bool__ / __len__ protocol
@@ -700,6 +704,9 @@ class Interp(object):
                 if ts is not None:
                     return [byte_to_int(t, self.E.int_mode) for t in ts]
             raise Unsupported('iteration over symbolic %s' % type(v).__name__)
+        from .values import SByteArray
+        if isinstance(v, SByteArray):
+            return self.iterate(v.data)
         itf = _mro_lookup(type(v), '__iter__')
         if isinstance(itf, types.FunctionType) and in_repo_scope(itf.__module__):
             return list(self.iterate(self.call_function(itf, [v], {})))
@@ -708,6 +715,8 @@ class Interp(object):
         except INTERNAL:
             raise
         except Exception as e:
+            if _model_gap(e):
+                raise Unsupported('iteration: %r' % (e,))
             raise PyRaise(e)
 
     def x_Break(self, s, frame):
@@ -1236,9 +1245,18 @@ def _bkey(f):
     return ('obj', id(f))
 
 
+_MODEL_NAMES = re.compile(r"\b(SInt|SBool|SBytes|SStr|SReal|SOpaque|SByteArray|SIntStr|SymRange|SymSet|SymList|SymDict|SymODict|"
+                          r"SymArray|SymBytesIO|SymProtocol|Blob|AbstractSeq|AbsDeque|AbsItem|ByteReader|InStream|"
+                          r"ArbitraryStream|ShortReadStream|OutSocket|Ghost\w+|Abs[A-Z]\w+|Sym[A-Z]\w+)\b")
+
+
 def _mentions_symbolic(e):
-    s = str(e)
-    return any(k in s for k in ('SInt', 'SBool', 'SBytes', 'SStr', 'SReal', 'SOpaque'))
+    return bool(_MODEL_NAMES.search(str(e)))
+
+
+def _model_gap(e):
+    """A TypeError / AttributeError that names one of our model classes is a hole in the model, not program behaviour."""
+    return isinstance(e, (TypeError, AttributeError, NotImplementedError)) and _mentions_symbolic(e)
 
 
 def _deep_symbolic(x, depth=0):
